@@ -4,7 +4,7 @@ import os, random, itertools
 VERIF = os.path.dirname(os.path.dirname(os.path.abspath(__file__)))
 
 TOKENS = ["a", "b", "c", "x", " ", " ", "  ", "   ", "    ", "\n", "\n", "\n", "\n\n", "\r\n", "\r", "\t", "> ", ">", "- ", "+ ", "* ", "1. ", "2) ", "10. ",
-          "# ", "## ", "#", "*", "**", "***", "_", "__", "`", "``", "```", "```\n", "~~~", "~~~\n", "[", "]", "](", "(", ")", "<", ">", ":", "\\", "&amp;",
+          "# ", "## ", "#", "*", "**", "***", "_", "__", "`", "``", "```", "```\n", "~~~", "~~~\n", "``` &#32;\n", "~~~ &nbsp;\n", "[", "]", "](", "(", ")", "<", ">", ":", "\\", "&amp;",
           "&#65;", "&#x41;", "&notit;", "&", ";", "é", "ß", " ", " ", "“", "=", "-", "!", "![", "\"", "'", "[a]: /u\n", "[a]: /u \"t\"\n", "[b]: <v w> 't'\n",
           "[a]", "[b]", "[a][a]", "[a][]", "[a][b]", "[A]", "<b>", "</b>", "<b c=\"d\">", "<!-- ", "-->", "<!--> ", "<![CDATA[", "]]>", "<?", "?>", "<!D", "<a href=\"x\">",
           "<script>", "</script>", "<pre>", "</pre>", "<div>\n", "</div>\n", "  \n", "\\\n", "<http://x.y>", "<a@b.c>", "http://x", "===\n", "---\n", "***\n", "___\n",
@@ -129,15 +129,16 @@ def strings_over(alphabet, maxlen):
 
 
 # ---- structured generator: near-valid multi-line constructs in containers ---------------------------
-_WORDS = [b"a", b"foo", b"bar", b"b c", b"x", "é".encode(), b"1", b"#", b"*a*", b"_b_", b"`c`", b"\\*", b"&amp;", b"<b>", b"a*", b"_", b"!", b"]", b"["]
-_LABELS = [b"foo", b"bar", b"Foo", b"bar baz", b"a", "ß".encode(), b"x y", b"1"]
-_DESTS = [b"/url", b"/u", b"<v w>", b"<>", b"http://x.y/z", b"/a(b)c", b"/a\\)b", b"<a\\>b>", b"/u%20v", b"#f"]
+_MB = [c.encode() for c in ["à", "\u00a0", "\u0085", "\u2028", "\u3000", "だ", "Ł", "ź", "б", "乡", "…", "\u2003", "ſ", "ß", "ς", "µ", "ǅ", "İ"]]
+_WORDS = _MB + [b"a", b"foo", b"bar", b"b c", b"x", "é".encode(), b"1", b"#", b"*a*", b"_b_", b"`c`", b"\\*", b"&amp;", b"<b>", b"a*", b"_", b"!", b"]", b"["]
+_LABELS = [b"foo", b"bar", b"Foo", b"bar baz", b"a", "ß".encode(), b"x y", b"1", "straße".encode(), b"STRASSE", "ΟΔΟΣ".encode(), "οδος".encode(), "ſ".encode(), b"S", "µ".encode(), "Μ".encode()]
+_DESTS = [b"/\xc5\x81", "/б乡".encode(), b"/url", b"/u", b"<v w>", b"<>", b"http://x.y/z", b"/a(b)c", b"/a\\)b", b"<a\\>b>", b"/u%20v", b"#f"]
 _TITLES = [b"\"t\"", b"'t'", b"(t)", b"\"t u\"", b"'a \"q\" b'", b"\"t", b"(t (u) v)", b"\"&amp;\\\"\"", b"''"]
 
 
 def _inline_template(rng):
     """a construct as a list of atoms between which line breaks may be inserted"""
-    k = rng.randrange(14)
+    k = rng.choice([0, 0, 1, 1, 2, 3, 4, 5, 6, 7, 8, 9, 9, 9, 10, 11, 12, 13])
     w = lambda: rng.choice(_WORDS)
     lab = lambda: rng.choice(_LABELS)
     if k == 0:      # inline link / image
@@ -257,7 +258,7 @@ def _block(rng, depth):
     if r < 0.75:
         f = rng.choice([b"```", b"~~~", b"````", b"~~~~"])
         body = b"".join(rng.choice([b"x\n", b"\n", b"  y\n", b"```\n", b"~~~\n", b"<b>\n", b"\tz\n"]) for _ in range(rng.randrange(4)))
-        return rng.choice([b"", b" ", b"   "]) + f + rng.choice([b"", b" go", b"go x", b" \\*"]) + b"\n" + body + (rng.choice([b"", b"  "]) + f + rng.choice([b"", b"`", b" ", b" x"]) + b"\n" if rng.random() < 0.7 else b"")
+        return rng.choice([b"", b" ", b"   "]) + f + rng.choice([b"", b" go", b"go x", b" \\*", b" &#32;", b"&nbsp;", b" &Tab; x", b" a&amp;b", b" \\ ", b"&#x20;", b" go\xc2\xa0", b"\xc3\xa0", b" x \xe3\x81\xa0 ", b"\xc2\xa0"]) + b"\n" + body + (rng.choice([b"", b"  "]) + f + rng.choice([b"", b"`", b" ", b" x"]) + b"\n" if rng.random() < 0.7 else b"")
     if r < 0.80:
         return b"".join(rng.choice([b"    ", b"\t", b"     ", b"  \t"]) + rng.choice([b"code", b"- x", b"> y", b"<b>", b""]) + b"\n" for _ in range(1 + rng.randrange(3)))
     if r < 0.86:
@@ -313,3 +314,19 @@ def structured(rng):
         i = rng.randrange(len(doc) + 1)
         doc = doc[:i] + rng.choice([b"\x00", b"\xff", b"\xe2\x82", b"\t"]) + doc[i:]
     return doc
+
+
+def tab_nul_templates():
+    """container prefix x construct opener x continuation indent with tabs x rest with NUL bytes (exhaustive product, about 4000 documents):
+    partial tabs inside containers and padded NULs are where the byte reader's virtual positions matter"""
+    prefixes = [b"- ", b"-  ", b"-   ", b"-    ", b"1. ", b"1.  ", b"1.   ", b"10. ", b"> ", b">", b">  "]
+    firsts = [b"[a", b"[a]:", b"a", b"`a", b"<b", b"[a](", b"*a"]
+    conts = [b"\t", b"\t\t", b" \t", b"  \t", b" \t\t", b"   \t", b"\t \t"]
+    rests = [b"b\x00]", b"\x00b]", b"/u\x00rl", b"b]", b"\x00", b"b\x00\x00c]", b"x`", b"c>"]
+    out = []
+    for p in prefixes:
+        for f in firsts:
+            for c in conts:
+                for r in rests:
+                    out.append(p + f + b"\n" + c + r + b"\n")
+    return out
